@@ -86,6 +86,12 @@ theorem anyAllowed_complete (acls : List Acl) (q : Req) (h : Spec.byTypeAcls acl
   obtain ⟨h1, h2, h3, h4⟩ := relevant_matches a q hr
   exact (anyAllowed_iff acls q).2 ⟨a, ha, h1, h2, h3, h4, hp⟩
 
+/-- non-vacuity: Kafka allows (the DENY on `b` does not dominate the ALLOW on prefix `a`), and so does kfake. -/
+example :
+    let acls : List Acl := [⟨userStar, star, 2, [98], 3, 4, 2⟩, ⟨userStar, star, 2, [97], 4, 4, 3⟩]
+    Spec.byTypeAcls acls ⟨userPfx ++ [97], [104], [], 2, 4⟩ = true ∧ anyAllowed acls ⟨userPfx ++ [97], [104], [], 2, 4⟩ = true := by
+  decide
+
 /-- **(2) is false of the code as it is.** Witness: `ALLOW User:a * Write topic a (literal)` together with
 `DENY User:a * Write topic * (literal)`; request `User:a` from host `h`, WRITE on some TOPIC: kfake allows, Kafka denies. -/
 theorem anyAllowed_ne_authorizeByResourceType :
@@ -139,5 +145,47 @@ theorem initProducerID_eq_partial (c : Cfg) (user host : Str) (txn : Option Str)
       allowedACL_eq_authorize c user host _ _ _ en wf na,
       anyAllowedACL_eq_partial c user host _ _ en wf na (by decide) (nd rfl)]
     simp
+
+/-- non-vacuity: user `a` has no IDEMPOTENT_WRITE on the cluster but may WRITE topic `t`, no DENY around: accepted;
+user `b` has nothing: refused; with a transactional id the decision is the WRITE permission on that id. -/
+example :
+    let c : Cfg := ⟨true, [[97, 100]], [⟨userPfx ++ [97], star, 2, [116], 3, 4, 3⟩, ⟨userPfx ++ [97], star, 5, [120], 4, 4, 3⟩]⟩
+    c.noAnonSuper ∧ (∀ a ∈ c.acls, a.WF) ∧
+    (∀ a ∈ c.acls, Spec.byTypeRelevant a ⟨principal [97], [104], [], rtTopic, opWrite⟩ = true → a.perm ≠ permDeny) ∧
+    initProducerIDAuthorized c [97] [104] none = true ∧ initProducerIDAuthorized c [98] [104] none = false ∧
+    initProducerIDAuthorized c [97] [104] (some [120, 49]) = true ∧ initProducerIDAuthorized c [97] [104] (some [121]) = false := by
+  decide
+
+/-- **The proposed repair satisfies (2) for every ACL list and request** (no hypotheses): `anyAllowedRepaired`
+(the loop of `anyAllowed` that also collects the relevant DENY entries, compares the operation with the entry's
+operation and ALL only, and lets an ALLOW count only if it is not dominated) is Kafka's `authorizeByResourceType`. -/
+theorem anyAllowedRepaired_eq (acls : List Acl) (q : Req) :
+    anyAllowedRepaired acls q = Spec.byTypeAcls acls q :=
+  anyAllowedRepaired_eq' acls q
+
+example :
+    let u : Str := userPfx ++ [97]
+    let q : Req := ⟨u, [104], [], 2, 4⟩
+    anyAllowedRepaired [⟨u, star, 2, [102, 111, 111], 3, 4, 3⟩, ⟨u, star, 2, [102], 4, 4, 2⟩] q = false ∧
+    anyAllowedRepaired [⟨u, star, 2, [102, 111, 111], 3, 4, 3⟩, ⟨u, star, 2, [98], 4, 4, 2⟩] q = true := by decide
+
+/-- Which Kafka rule is meant: the default `Authorizer.authorizeByResourceType` that `StandardAuthorizer` inherits
+first probes `authorize` on the literal resource "hardcode"; for operations that nothing implies the probe never
+changes the answer, so the `AclAuthorizer` form used as the Spec is also `StandardAuthorizer`'s answer. -/
+theorem hardcode_probe_redundant (supers : List Str) (acls : List Acl) (q : Req) (hop : notImplied q.op) :
+    Spec.authorizeByResourceTypeStd supers acls q = Spec.authorizeByResourceType supers acls q :=
+  hardcode_probe_redundant' supers acls q hop
+
+
+/-- non-vacuity: an ALLOW on the prefix `hard` makes the probe succeed (and the by-type rule agrees); a DENY on
+the literal `hardcode` makes the probe fail while the by-type rule still allows (prefix `hard` is not dominated). -/
+example :
+    let u : Str := userPfx ++ [97]
+    let q : Req := ⟨u, [104], [], 2, 4⟩
+    notImplied q.op ∧
+    Spec.authorizeByResourceTypeStd [] [⟨u, star, 2, [104, 97, 114, 100], 4, 4, 3⟩] q = true ∧
+    Spec.authorize [] [⟨u, star, 2, [104, 97, 114, 100], 4, 4, 3⟩, ⟨u, star, 2, Spec.hardcode, 3, 4, 2⟩] { q with name := Spec.hardcode } = false ∧
+    Spec.authorizeByResourceTypeStd [] [⟨u, star, 2, [104, 97, 114, 100], 4, 4, 3⟩, ⟨u, star, 2, Spec.hardcode, 3, 4, 2⟩] q = true := by
+  decide
 
 end Props.C34
